@@ -181,15 +181,26 @@ def unused_direct(tree, given, out):
 
 
 def misplaced_bindings(tree, given):
-    """Bindings whose concrete type has no source in the very set where the binding appears."""
+    """Bindings whose concrete type has no source in the very set where the binding appears (own items,
+    injector parameters or anything a nested set provides).  A binding whose concrete type is only provided
+    by another binding of the same level (a chain) is outside the documented form; such sets are reported
+    separately by has_chained_bindings and skipped by the oracles."""
     bad = []
     for x in all_sets(tree):
         g = given if x is tree else None
-        have = {t for t, src, path in flatten(x, g) if src[0] != "bind"}
+        have = {t for t, src, path in flatten(x, g) if not (src[0] == "bind" and path == ())}
         for b in x["bindings"]:
             if b["conc"] not in have:
                 bad.append(b["id"])
     return bad
+
+
+def has_chained_bindings(tree):
+    for x in all_sets(tree):
+        ifaces = {b["iface"] for b in x["bindings"]}
+        if any(b["conc"] in ifaces for b in x["bindings"]):
+            return True
+    return False
 
 
 def well_formed(tree, given, out):
